@@ -566,10 +566,17 @@ def parser_check(mod, spec, views, params):
             log = list(mod.LOG)
             for n in names:
                 if n in iv["bound"] and iv["bound"][n]:
-                    lv = iv["bound"][n][0]
-                    seen = [vals[n] for l2, vals in log if l2 == lv and n in vals]
+                    # where the interpreter run saw the value: under its own name at the binding levels, and - for a
+                    # name popped / got inline - under the key of the argument it is handed on as
+                    inline = inline_popget_level(spec, n)
+                    where = [(lv, n) for lv in iv["bound"][n] if inline is None or lv != f"L{inline}"]
+                    where += [(lv, k) for lv, k in iv["renamed"].get(n, [])]
+                    if not where:
+                        continue  # popped inline and handed to a level that never looks at it
+                    lv, key = where[0]
+                    seen = [vals[key] for l2, vals in log if l2 == lv and key in vals]
                     if not seen or seen[0] != gen.sentinel(n):
-                        dev("parser:value-not-delivered-to-binding-level", f"{n}: level {lv} saw {seen}")
+                        dev("parser:value-not-delivered-to-binding-level", f"{n}: level {lv} saw {key}={seen}")
     return devs
 
 
@@ -691,6 +698,8 @@ def families(tier):
             dict(name="depth2", depths=[2], size="mid", checks="full", same=True),
             dict(name="depth3", depths=[3], size="small", checks="resolve", same=False, link_filter=_at_most_one_branching, aux=False),
             dict(name="hierarchy4", depths=[4], size="tiny4", checks="resolve", same=False, link_filter=_pure_hierarchy, rich=True),
+            dict(name="hierarchy2+blank", depths=[2], size="small+", checks="full", same=True, link_filter=_pure_hierarchy, blank=True),
+            dict(name="hierarchy3+blank", depths=[3], size="tiny4", checks="resolve", same=False, link_filter=_pure_hierarchy, blank=True),
         ]
     return [
         dict(name="depth1", depths=[1], size="full", checks="full", same=True),
@@ -699,6 +708,9 @@ def families(tier):
         dict(name="depth4", depths=[4], size="tiny", checks="resolve", same=False, link_filter=_no_branching),
         dict(name="hierarchy4", depths=[4], size="small", checks="full", same=True, link_filter=_pure_hierarchy, rich=True),
         dict(name="hierarchy5", depths=[5], size="tiny4", checks="resolve", same=False, link_filter=_pure_hierarchy, rich=True),
+        dict(name="hierarchy2+blank", depths=[2], size="full", checks="full", same=True, link_filter=_pure_hierarchy, blank=True),
+        dict(name="hierarchy3+blank", depths=[3], size="small+", checks="full", same=True, link_filter=_pure_hierarchy, blank=True),
+        dict(name="hierarchy4+blank", depths=[4], size="tiny", checks="resolve", same=False, link_filter=_pure_hierarchy, blank=True),
     ]
 
 
@@ -710,6 +722,7 @@ def family_programs(fam):
         link_filter=fam.get("link_filter"),
         same_scheme_depths=tuple(fam["depths"]) if fam.get("same") else (),
         aux_layouts=fam.get("aux", True),
+        blank=fam.get("blank", False),
     )
 
 
